@@ -21,7 +21,11 @@ SingleOf(o, s) == [ty : {o.ty}, op : {o.op}, slot : {s[1]}, lane : Lanes(s[2]), 
 PairOf(o, s, t, p) == [ty : {o.ty}, op : {o.op}, slot : {s[1]}, lane : {"all"}, sp : {p[1]}, slot2 : {t[1]}, sp2 : {p[2]}]
 Single == UNION { UNION { SingleOf(o, s) : s \in o.slots } : o \in Ops }
 Pairs  == UNION { UNION { UNION { UNION { PairOf(o, s, t, p) : p \in PairSpecials } : t \in {x \in o.slots : x[1] # s[1]} } : s \in o.slots } : o \in Ops }
-Calls == Single \cup Pairs
+\* every argument slot filled with a pseudo-random bit pattern (finite, special and arbitrary values mixed): the draw is named by its
+\* index, the harness derives the values from (index, Seed)
+RandDraws == IF Quick THEN 1..6 ELSE 1..96
+Rand == UNION { [ty : {o.ty}, op : {o.op}, slot : {"rand"}, lane : {ToString(k) : k \in RandDraws}, sp : {"random"}, slot2 : {"-"}, sp2 : {"-"}] : o \in Ops }
+Calls == Single \cup Pairs \cup Rand
 \* documented panics of this family: none.  (Slices, indices and integer arithmetic are MC_C18b / C13.)
 Panics(c) == FALSE
 
